@@ -21,6 +21,12 @@ def dispatch (t : Toks) : Verdict :=
   | none =>
   match NutsModel.Drv.C19.dispatch t with
   | some v => v
+  | none =>
+  match NutsModel.Drv.C02.dispatch t with
+  | some v => v
+  | none =>
+  match NutsModel.Drv.C18.dispatch t with
+  | some v => v
   | none => .bad s!"unknown record kind {t[0]?}"
 
 partial def loop (h : IO.FS.Stream) (st : Stats) : IO Stats := do
